@@ -73,31 +73,28 @@ Proof.
   destruct o as [z|]; [|reflexivity]. unfold truthy_z. destruct (z =? 0) eqn:E; [reflexivity|]. rewrite E. reflexivity.
 Qed.
 
-Lemma split_slash_none s : forall cur, has_slash s = false -> split_slash s cur = [rev cur ++ s].
+Lemma strip_prefix_app p : forall s r, strip_prefix p s = Some r -> s = p ++ r.
 Proof.
-  induction s as [|c r IH]; intros cur H; simpl.
-  - rewrite app_nil_r. reflexivity.
-  - assert (H' : (47 =? c)%N = false /\ has_slash r = false).
-    { unfold has_slash in *. change (existsb (N.eqb 47) (c :: r)) with ((47 =? c)%N || existsb (N.eqb 47) r) in H.
-      apply orb_false_elim in H. exact H. }
-    destruct H' as [H1 H2]. destruct (c =? 47)%N eqn:Ec.
-    + apply N.eqb_eq in Ec. subst c. discriminate.
-    + rewrite (IH (c :: cur) H2). simpl. rewrite <- app_assoc. reflexivity.
+  induction p as [|c p IH]; intros s r H; simpl in *; [inversion H; reflexivity|].
+  destruct s as [|c' s']; [discriminate|]. destruct (c =? c')%N eqn:E; [|discriminate].
+  apply N.eqb_eq in E. subst c'. rewrite (IH s' r H). reflexivity.
 Qed.
-Lemma parse_exp_none s : has_slash s = false -> parse_exp s = None.
-Proof. intros H. unfold parse_exp. rewrite (split_slash_none s [] H). reflexivity. Qed.
+Lemma has_slash_app a b : has_slash (a ++ b) = has_slash a || has_slash b.
+Proof. unfold has_slash. apply existsb_app. Qed.
 Lemma exp_entries_none vinfos f :
   existsb (fun vi => has_slash (vname vi)) vinfos = false -> exp_entries vinfos f = [].
 Proof.
   intros H. unfold exp_entries.
-  assert (E : concat (map (fun vi => match parse_exp (dflt [] (vi_name vi)) with
-                                     | Some (d, fn, v) =>
-                                         if str_eqb d (if_domain f) && str_eqb fn (if_name f) && str_eqb [] (if_overload f)
-                                         then [(v, vi)] else []
+  assert (E : concat (map (fun vi => match strip_prefix (exp_prefix f) (dflt [] (vi_name vi)) with
+                                     | Some v => [(v, vi)]
                                      | None => []
                                      end) vinfos) = []).
   { induction vinfos as [|vi r IH]; [reflexivity|]. simpl in H. apply orb_false_elim in H. destruct H as [H1 H2].
-    simpl. unfold vname in H1. rewrite (parse_exp_none _ H1). simpl. apply IH. exact H2. }
+    simpl. destruct (strip_prefix (exp_prefix f) (dflt [] (vi_name vi))) as [v|] eqn:Es.
+    - exfalso. apply strip_prefix_app in Es. unfold vname in H1. rewrite Es in H1.
+      unfold exp_prefix in H1. rewrite !has_slash_app in H1.
+      change (has_slash [47%N]) with true in H1. rewrite !orb_true_r in H1. simpl in H1. discriminate.
+    - simpl. apply IH. exact H2. }
   rewrite E. reflexivity.
 Qed.
 Lemma apply_exp_all_none vinfos fns :
